@@ -372,3 +372,27 @@ impl Sess {
         self.obs_ast(&e, &rc)
     }
 }
+
+
+/// `SerializableValue::from_json` through an adapter that compiles whether the function takes the
+/// JSON value by reference (as on the pinned tree) or by value: a refactoring of that signature
+/// must not stop the checks from building.
+pub trait JsonArg<'a> {
+    fn make(v: &'a serde_json::Value) -> Self;
+}
+impl<'a> JsonArg<'a> for &'a serde_json::Value {
+    fn make(v: &'a serde_json::Value) -> Self {
+        v
+    }
+}
+impl<'a> JsonArg<'a> for serde_json::Value {
+    fn make(v: &'a serde_json::Value) -> Self {
+        v.clone()
+    }
+}
+fn call_from_json<'a, A: JsonArg<'a>, F: Fn(A) -> blots_core::values::SerializableValue>(f: F, v: &'a serde_json::Value) -> blots_core::values::SerializableValue {
+    f(A::make(v))
+}
+pub fn from_json(v: &serde_json::Value) -> blots_core::values::SerializableValue {
+    call_from_json(blots_core::values::SerializableValue::from_json, v)
+}
